@@ -41,7 +41,11 @@ class FragmentsGenerator:
 
         names_to_exclude = exclude_names or set()
         self._fragments_names = self._fragments_names - names_to_exclude
-        for name in self._fragments_names:
+        names_to_generate = sorted(self._fragments_names)
+        while names_to_generate:
+            name = names_to_generate.pop(0)
+            if name in dependencies_dict:
+                continue
             fragmanet_def = self.fragments_definitions[name]
             generator = ResultTypesGenerator(
                 schema=self.schema,
@@ -59,6 +63,12 @@ class FragmentsGenerator:
             if class_defs:
                 top_level_class_names.append(class_defs[0].name)
             dependencies_dict[name] = generator.get_fragments_used_as_mixins()
+            # a fragment that is a base class of a generated fragment is needed
+            # too, even if it was excluded because some operation unpacks it
+            self._fragments_names = self._fragments_names.union(
+                dependencies_dict[name]
+            )
+            names_to_generate.extend(sorted(dependencies_dict[name]))
             self._generated_public_names.extend(generator.get_generated_public_names())
             self._used_enums.extend(generator.get_used_enums())
 
